@@ -18,7 +18,7 @@ RULE = ("a case = a whole operation history on two objects of one flavour: stati
         "NxCopy (noexcept non-trivial copy, self-checking) / std::string / MoveOnly (non-trivial storage); stack over static_vector of "
         "int / Tracked / std::string / MoveOnly; inplace_vector of the same six element kinds; capacities {0,1,2,3,4,8,16,254,255,256} and "
         "{65534,65535,65536}; exhaustive part: every content state of length <= cap <= 3 over values {1,18,35} x every single "
-        "operation (43 static_vector, 17 stack, 24 inplace_vector operations of the model = 44 / 17 / 24 harness op codes) with every position/count/index "
+        "operation (54 static_vector, 18 stack, 24 inplace_vector operations of the model) with every position/count/index "
         "argument in [-1, size+1]; short exhaustive histories for inplace_vector and stack; random part: seeded capacity-aware "
         "histories of length <= 40, ~35% of steps at or crossing full/empty, fill-to-boundary runs at 254/255/256 and 65534/65535/65536; non-trivial = distinct history that reaches a non-empty state")
 TRUSTED_BASE = ["reference leg: libstdc++ 12 std::vector<int> / std::stack<int, std::vector<int>> driven by the same history "
@@ -39,7 +39,10 @@ CAPS = {
     "iv_pod": [3, 16],
 }
 # operations that need a copyable element type (the harness answers `unsupported-step` for them on MoveOnly)
-NEEDS_COPY = {"icr", "inn", "irg", "rsv", "asn", "asr", "cpa", "cpc", "sca", "ctv", "ctr", "cpi", "ivc", "fcc"}
+NEEDS_COPY = {"icr", "inn", "irg", "rsv", "asn", "asr", "cpa", "cpc", "sca", "ctv", "ctr", "cpi", "ivc", "fcc", "irk", "ask", "ctk", "pba", "eba", "ica", "ina", "rva"}
+# iterator kinds of the range members (harness.cpp with_range): pointer, etl::reverse_iterator<T*>, bidirectional,
+# forward, single-pass input, random-access class
+KINDS = [0, 1, 2, 3, 4, 5]
 NEEDS_COPY_ST = NEEDS_COPY | {"pb"}     # stack::push(value_type const&)
 
 
@@ -83,7 +86,7 @@ class Sim:
         x = v[tg]
         sz = len(x)
         room = self.cap - sz
-        if name in ("pb", "pbr", "eb", "upb", "uem", "upr"):
+        if name in ("pb", "pbr", "eb", "ebr", "upb", "uem", "upr"):
             if room < 1: return False
             x.append(a[1])
         elif name in ("tpb", "tem", "tpr"):
@@ -103,6 +106,28 @@ class Sim:
             xs = a[3:3 + a[2]]
             if not (0 <= a[1] <= sz) or len(xs) > room: return False
             x[a[1]:a[1]] = xs
+        elif name in ("pba", "eba"):
+            if not (0 <= a[1] < sz) or room < 1: return False
+            x.append(x[a[1]])
+        elif name == "ica":
+            if not (0 <= a[2] < sz) or not (0 <= a[1] <= sz) or room < 1: return False
+            x.insert(a[1], x[a[2]])
+        elif name == "ina":
+            if not (0 <= a[3] < sz) or not (0 <= a[1] <= sz) or not (0 <= a[2] <= room): return False
+            x[a[1]:a[1]] = [x[a[3]]] * a[2]
+        elif name == "rva":
+            if not (0 <= a[2] < sz) or not (0 <= a[1] <= self.cap): return False
+            fillv = x[a[2]]
+            if a[1] <= sz: del x[a[1]:]
+            else: x.extend([fillv] * (a[1] - sz))
+        elif name in ("irk", "mik"):
+            xs = a[4:4 + a[3]]
+            if not (0 <= a[2] <= sz) or len(xs) > room: return False
+            x[a[2]:a[2]] = xs
+        elif name in ("ask", "ctk"):
+            xs = a[3:3 + a[2]]
+            if len(xs) > self.cap: return False
+            v[tg] = list(xs)
         elif name == "era":
             if not (0 <= a[1] < sz): return False
             del x[a[1]]
@@ -167,8 +192,9 @@ def sv_single_ops(t, sz, cap, vals):
     """every single static_vector operation with boundary arguments for a vector of size sz"""
     ops = []
     x = vals[0]
-    for name in ("pb", "eb"):
+    for name in ("pb", "eb", "ebr"):
         ops.append(f"{name} {t} {x}")
+    ops.append(f"pb {t} {x + 1}")      # even values: push_back of an lvalue, odd ones: of an rvalue
     ops.append(f"pop {t}")
     for pos in range(-1, sz + 2):
         ops += [f"icr {t} {pos} {x}", f"irv {t} {pos} {x}", f"emp {t} {pos} {x}", f"era {t} {pos}"]
@@ -177,12 +203,16 @@ def sv_single_ops(t, sz, cap, vals):
             ops.append(f"inn {t} {pos} {n} {x}")
             ops.append(f"irg {t} {pos} {L(xs)}")
             ops.append(f"mir {t} {pos} {L(xs)}")
+            # one non-pointer kind per (position, count), rotating; the aimed sweep in gen() has all of them
+            ops.append(f"irk {t} {1 + (pos + n + sz) % 5} {pos} {L(xs)}")
+            ops.append(f"mik {t} {1 + (pos + 2 * n + sz) % 5} {pos} {L(xs)}")
         for l in range(pos, sz + 2):
             ops.append(f"err {t} {pos} {l}")
     ops.append(f"clr {t}")
     for n in range(-1, cap + 2):
         if n >= 0:
-            ops += [f"rsz {t} {n}", f"rsv {t} {n} {x}", f"asn {t} {n} {x}", f"asr {t} {L((vals * 3)[:n])}", f"ctr {t} {L((vals * 3)[:n])}"]
+            ops += [f"rsz {t} {n}", f"rsv {t} {n} {x}", f"asn {t} {n} {x}", f"asr {t} {L((vals * 3)[:n])}", f"ctr {t} {L((vals * 3)[:n])}",
+                    f"ask {t} {1 + (n + sz) % 5} {L((vals * 3)[:n])}", f"ctk {t} {1 + (n + sz + 2) % 5} {L((vals * 3)[:n])}"]
         ops += [f"ctn {t} {n}", f"ctv {t} {n} {x}"]
     ops += ["swp", "fsw", f"cpa {t}", f"mva {t}", f"cpc {t}", f"mrt {t}", "rel", f"sca {t}", f"sma {t}", f"ssw {t}", f"fr {t}", f"bk {t}",
             f"rit {t} 0", f"rit {t} 1", f"rit {t} 2", f"cit {t}", f"dat {t}", f"mxs {t}", f"sfr {t} 52", f"sbk {t} 52",
@@ -195,12 +225,20 @@ def sv_single_ops(t, sz, cap, vals):
         ops.append(f"erv {t} {v}")
     for i in range(-1, sz + 1):
         ops += [f"at {t} {i}", f"sat {t} {i} 52"]
+        # the argument is element i of the vector itself
+        ops += [f"pba {t} {i}", f"eba {t} {i}"]
+        for n in range(0, cap + 2):
+            ops.append(f"rva {t} {n} {i}")
+        for pos in range(0, sz + 1):
+            ops.append(f"ica {t} {pos} {i}")
+            for n in range(0, cap - sz + 2):
+                ops.append(f"ina {t} {pos} {n} {i}")
     return ops
 
 
 def st_single_ops(t, sz, cap, vals):
     x = vals[0]
-    ops = [f"pb {t} {x}", f"pbr {t} {x}", f"eb {t} {x}", f"pop {t}", f"bk {t}", f"sbk {t} 52", f"siz {t}", "swp", "fsw", "rel",
+    ops = [f"pb {t} {x}", f"pbr {t} {x}", f"eb {t} {x}", f"ebr {t} {x}", f"pop {t}", f"bk {t}", f"sbk {t} 52", f"siz {t}", "swp", "fsw", "rel",
            f"cpc {t}", f"mvc {t}", f"cpa {t}", f"mva {t}", f"sca {t}"]
     for n in range(0, cap + 2):
         ops += [f"fcc {t} {L((vals * 3)[:n])}", f"fcr {t} {L((vals * 3)[:n])}"]
@@ -280,7 +318,7 @@ def random_history(rng, fl, cap, vals, steps, want_invalid, fill_first=None):
                     f"sca {t}", f"sma {t}", f"sat {t} {i} {x}", f"sfr {t} {x}", f"sbk {t} {x}", f"dat {t}", f"mxs {t}",
                     f"cpi {t} {rng.randint(0, 1)} {x}", f"fil {t} {rng.randint(0, max(0, min(room, 4)) + 1)} {x}"]
         elif k == "st":
-            cand = [f"pb {t} {x}", f"pbr {t} {x}", f"eb {t} {x}", f"pop {t}", f"pop {t}", f"bk {t}", f"sbk {t} {x}", f"siz {t}", "swp", "fsw",
+            cand = [f"pb {t} {x}", f"pbr {t} {x}", f"eb {t} {x}", f"ebr {t} {x}", f"pop {t}", f"pop {t}", f"bk {t}", f"sbk {t} {x}", f"siz {t}", "swp", "fsw",
                     "rel", f"cpc {t}", f"mvc {t}", f"cpa {t}", f"mva {t}", f"sca {t}",
                     f"fcc {t} {L([rng.choice(vals) for _ in range(rng.randint(0, min(cap, 5)))])}",
                     f"fcr {t} {L([rng.choice(vals) for _ in range(rng.randint(0, min(cap, 5)))])}"]
@@ -292,7 +330,10 @@ def random_history(rng, fl, cap, vals, steps, want_invalid, fill_first=None):
             f = rng.randint(0, sz); l = rng.randint(f, sz)
             xs = [rng.choice(vals) for _ in range(n)]
             small = [rng.choice(vals) for _ in range(rng.randint(0, min(cap, 6)))]
-            cand = [f"pb {t} {x}", f"eb {t} {x}", f"pop {t}", f"icr {t} {pos} {x}", f"irv {t} {pos} {x}", f"emp {t} {pos} {x}",
+            kd = rng.choice(KINDS)
+            cand = [f"pb {t} {x}", f"eb {t} {x}", f"ebr {t} {x}", f"pop {t}", f"icr {t} {pos} {x}", f"irv {t} {pos} {x}", f"emp {t} {pos} {x}",
+                    f"irk {t} {kd} {pos} {L(xs)}", f"mik {t} {kd} {pos} {L(xs)}", f"ask {t} {kd} {L(small)}", f"ctk {t} {kd} {L(small)}",
+                    f"pba {t} {i}", f"eba {t} {i}", f"ica {t} {pos} {i}", f"ina {t} {pos} {n} {i}", f"rva {t} {rng.randint(0, cap)} {i}",
                     f"inn {t} {pos} {n} {x}", f"irg {t} {pos} {L(xs)}", f"mir {t} {pos} {L(xs)}", f"era {t} {i}", f"err {t} {f} {l}",
                     f"clr {t}", f"rsz {t} {rng.randint(0, cap)}", f"rsv {t} {rng.randint(0, cap)} {x}",
                     f"asn {t} {rng.randint(0, min(cap, 6))} {x}", f"asr {t} {L(small)}",
@@ -317,15 +358,18 @@ def random_history(rng, fl, cap, vals, steps, want_invalid, fill_first=None):
                 bad = [f"pb {t} {x}" if room == 0 else (f"inn {t} 0 {room + 1} {x}" if fl != "sv_mov" else f"mir {t} 0 {L([x] * (room + 1))}"),
                        f"at {t} -1", f"at {t} {sz}", f"era {t} {sz}", f"irv {t} {sz + 1} {x}", f"err {t} {min(sz, 1)} {sz + 1}", f"rsz {t} {cap + 1}",
                        f"sat {t} {sz} {x}", f"ctn {t} {cap + 1}", f"mir {t} {sz + 1} 0", f"ctn {t} -1"]
+                bad += [f"mik {t} {kd} 0 {L([x] * (room + 1))}", f"mik {t} {kd} {sz + 1} 0"] + ([f"ebr {t} {x}"] if room == 0 else [])
                 if fl != "sv_mov":
-                    bad += [f"inn {t} 0 -1 {x}", f"inn {t} 0 {-sz - 1} {x}", f"icr {t} {sz + 1} {x}", f"ctv {t} {cap + 1} {x}", f"ctr {t} {L([x] * (cap + 1))}"]
+                    bad += [f"inn {t} 0 -1 {x}", f"inn {t} 0 {-sz - 1} {x}", f"icr {t} {sz + 1} {x}", f"ctv {t} {cap + 1} {x}", f"ctr {t} {L([x] * (cap + 1))}",
+                            f"pba {t} {sz}", f"ica {t} 0 -1", f"ina {t} 0 {room + 1} 0", f"rva {t} {cap + 1} 0",
+                            f"irk {t} {kd} {pos} {L([x] * (room + 1))}", f"ask {t} {kd} {L([x] * (cap + 1))}", f"ctk {t} {kd} {L([x] * (cap + 1))}"]
                 if sz == 0:
                     bad += [f"sfr {t} {x}", f"sbk {t} {x}", f"pop {t}"]
             elif k == "iv":
                 bad = ([f"upb {t} {x}", f"uem {t} {x}", f"upr {t} {x}"] if room == 0 else [f"at {t} {sz}", f"sat {t} {sz} {x}"]) + \
                       ([f"pop {t}", f"sfr {t} {x}", f"sbk {t} {x}", f"fr {t}"] if sz == 0 else [])
             else:
-                bad = ([f"pb {t} {x}", f"pbr {t} {x}", f"eb {t} {x}"] if room == 0 else []) + \
+                bad = ([f"pb {t} {x}", f"pbr {t} {x}", f"eb {t} {x}", f"ebr {t} {x}"] if room == 0 else []) + \
                       ([f"pop {t}", f"bk {t}", f"sbk {t} {x}"] if sz == 0 else []) + [f"fcc {t} {L([x] * (cap + 1))}"]
             bad = [o for o in bad if supported(fl, o)]
             if bad:
@@ -356,7 +400,7 @@ def gen(tier, rng):
             exhaustive_single(out, fl, cap, vals, full_contents=(fl == "iv_int" or not quick))
     # ---- inplace_vector and stack: exhaustive short histories
     iv_alpha = ["tpb 0 2", "tem 0 3", "upb 0 4", "pop 0", "clr 0", "bk 0", "at 0 1", "ivc 0", "ivm 0", "tpr 1 6", "mva 0", "cpa 1", "sbk 0 9"]
-    st_alpha = ["pb 0 1", "eb 0 2", "pop 0", "bk 0", "swp", "rel", "cpc 0", "pbr 1 3", "mva 0", "cpa 1"]
+    st_alpha = ["pb 0 1", "eb 0 2", "pop 0", "bk 0", "swp", "rel", "cpc 0", "pbr 1 3", "mva 0", "cpa 1", "ebr 0 4"]
     depth = 3 if quick else 4
     iv_unreachable = ("upb", "pop", "fr", "bk", "at", "sbk")   # every such call is a contract violation in inplace_vector<T, 0>
     for cap in [0, 1, 3]:
@@ -391,6 +435,42 @@ def gen(tier, rng):
                             continue
                         ins = f"irg 0 {pos} {L(new)}" if fl != "sv_mov" else f"mir 0 {pos} {L(new)}"
                         out.append(hist(fl, cap, [f"mir 0 0 {L(base)}", ins, f"era 0 {pos}", "rit 0 0"]))
+    # ---- the range members with a source of every iterator kind: every (size, position, count) at capacity 4 incl. one
+    #      element too many (forward / input sources have no up-front capacity check: the emplace_back loop must stop them)
+    for fl in ("sv_int", "sv_trk", "sv_str", "sv_mov"):
+        cap = 4
+        for sz0 in range(0, cap + 1):
+            base = [100 + i for i in range(sz0)]
+            for kd in KINDS:
+                for pos in range(0, sz0 + 1):
+                    for n in range(0, cap - sz0 + 2):
+                        if quick and fl != "sv_int" and rng.random() > 0.3:
+                            continue
+                        new = [200 + i for i in range(n)]
+                        ins = f"irk 0 {kd} {pos} {L(new)}" if (fl != "sv_mov" and (pos + n) % 2 == 0) else f"mik 0 {kd} {pos} {L(new)}"
+                        out.append(hist(fl, cap, [f"mik 0 {(kd + 1) % 6} 0 {L(base)}", ins, "dat 0", "ebr 0 7"]))
+                if fl != "sv_mov":
+                    for n in range(0, cap + 2):
+                        new = [200 + i for i in range(n)]
+                        out.append(hist(fl, cap, [f"ask 0 {kd} {L(base)}", f"ctk 1 {kd} {L(new)}", f"ask 0 {(kd + 3) % 6} {L(new)}", "rel"]))
+    for cap in (0, 1, 255, 256):
+        for kd in KINDS:
+            fillc = [7] * max(0, cap - 1)
+            out.append(hist("sv_int", cap, [f"ask 0 {kd} {L(fillc)}", f"irk 0 {kd} 0 1 5", f"mik 0 {(kd + 2) % 6} {cap} 1 6"]))
+    # ---- an argument that is an element of the vector itself, pairwise distinct elements: every (size, position, count)
+    #      with the element just before / at / after the insertion point and the first / last one
+    for fl, cap in (("sv_int", 8), ("sv_trk", 4), ("sv_str", 4), ("sv_nxc", 4), ("sv_pod", 16)):
+        top = min(cap, 8)
+        for sz0 in range(1, top + 1):
+            base = [100 + i for i in range(sz0)]
+            for pos in range(0, sz0 + 1):
+                for k in sorted({0, sz0 - 1, max(0, pos - 1), min(sz0 - 1, pos)}):
+                    for n in range(0, top - sz0 + 1):
+                        if quick and fl != "sv_int" and rng.random() > 0.5:
+                            continue
+                        out.append(hist(fl, cap, [f"asr 0 {L(base)}", f"ina 0 {pos} {n} {k}", f"rva 0 {min(top, sz0 + n + 1)} {k}", "dat 0"]))
+                    if sz0 < top:
+                        out.append(hist(fl, cap, [f"asr 0 {L(base)}", f"ica 0 {pos} {k}", f"pba 0 {pos}", "dat 0"] + ([f"eba 0 {k}"] if sz0 + 2 < top else [])))
     # ---- dirty storage: slots at and above size() that held elements before must not show through a later growth
     for fl, caps in (("sv_int", [1, 2, 3, 4, 8]), ("sv_pod", [3]), ("sv_trk", [3]), ("sv_str", [3])):
         for cap in caps:
